@@ -2,7 +2,7 @@
 REG_DRAFT = dict(
     engine='E1-enum',
     technique='exhaustive enumeration of divergence mechanism x program position x sandbox mode, each run as a real CLI process under an address-space limit and a wall-clock cap',
-    text="A finite family per way of not finishing: 13 never-terminating loop/recursion forms (while, for, self/mutual/closure/method/callback recursion, endless printing, read_line on an open stdin), 9 value-growth forms whose size doubles or nests per iteration (string, list, Option, tuple, dict; by loop and by recursion), every public prelude function and method called on large arguments (2 MiB string, 65k-element list, i64 extremes; does one interpreter step stay bounded?), recursion to every depth 985..1015 around the 1 000-frame limit (plus 10, 100, 2 000) and a ladder of values nested 10..1 000 (quick) / 10..100 000 (thorough) deep that are then dropped, printed, compared or shown. Each is placed at top level, in a function, closure, method and test body and run with `playground-run` and `sandboxed-test` (growth forms: reduced cross in quick). Oracle: the process exits by itself with status 0 and a JSON result (value, error, tick- or stack-limit error): no signal, no panic (101), no allocation failure under RLIMIT_AS, not the wall cap (60 s; a timed-out case is re-run alone with 3x the cap before it counts).",
+    text="A finite family per way of not finishing: 13 never-terminating loop/recursion forms (while, for, self/mutual/closure/method/callback recursion, endless printing, read_line on an open stdin), 9 value-growth forms whose size doubles or nests per iteration (string, list, Option, tuple, dict; by loop and by recursion), every public prelude function and method called on large arguments (256 KiB string, 65k-element list, i64 extremes; does one interpreter step stay bounded?), recursion to every depth 985..1015 around the 1 000-frame limit (plus 10, 100, 2 000) and a ladder of values nested 10..1 000 (quick) / 10..100 000 (thorough) deep that are then dropped, printed, compared or shown. Each is placed at top level, in a function, closure, method and test body and run with `playground-run` and `sandboxed-test` (growth forms: reduced cross in quick). Oracle: the process exits by itself with status 0 and a JSON result (value, error, tick- or stack-limit error): no signal, no panic (101), no allocation failure under RLIMIT_AS, not the wall cap (60 s; a timed-out case is re-run alone with 3x the cap before it counts).",
     note='Limits are the fixed sandbox limits (100 000 ticks, 1 000 frames). The address-space limit is 1 GiB in quick and 4 GiB in thorough; an allocation failure of a bounded program under 1 GiB is re-run under 4 GiB before it counts. Only the listed mechanisms are covered, not their compositions.',
     design_ref='DESIGN.md §6 C25',
 )
@@ -19,7 +19,7 @@ MODES = ["playground-run", "sandboxed-test"]
 GIB = 1024 * 1024
 WALL = 60.0
 HEAVY_PARALLEL = 4
-BIGSTR = 'let big = "ab"\nlet big_i = 0\nwhile big_i < 20 { big = big ^ big big_i += 1 }\n'          # 2 MiB
+BIGSTR = 'let big = "ab"\nlet big_i = 0\nwhile big_i < 17 { big = big ^ big big_i += 1 }\n'          # 256 KiB
 BIGLIST = 'let bigl_s = "ab"\nlet bigl_i = 0\nwhile bigl_i < 15 { bigl_s = bigl_s ^ bigl_s bigl_i += 1 }\nlet bigl = bigl_s.chars()\n'   # 65 536 one-character strings
 MAXI, MINI = "9223372036854775807", "-9223372036854775808"
 
